@@ -78,6 +78,9 @@ func c07FileOp(op int) {
 	switch vChoice("hostile_position", 3) {
 	case 0:
 		name = vBytesEach("name", 2)
+		if vBool("name_ends_in_partial_suffix") { // ".incomplete" is special to the file wrapper
+			name = append(append([]byte(nil), name...), ".incomplete"...)
+		}
 	case 1:
 		item = vBytesEach("item", 2)
 	default:
@@ -139,7 +142,10 @@ func VH_C07_RequestsNamingTheRoot_sym() {
 	vUnroll(200)
 	e := c07Env()
 	vAssume(e.fs.exists)
-	name := vBytesEach("name", 1)
+	name := vBytesEach("name", 2)
+	if vBool("name_ends_in_partial_suffix") {
+		name = append(append([]byte(nil), name...), ".incomplete"...)
+	}
 	nameField := f(hotline.FieldFileName, name)
 	switch vChoice("op", 5) {
 	case 0:
